@@ -12,10 +12,11 @@
    and the MINOR stage specification of C04 (score incl. phase term, admissibility, property clauses) is invariant under every strictly
    increasing position map (same-strand builds).
    For the major stage the evidence filter and candidate selection are covered as well (C13_major_stage_same_strand).
-   The evidence filter of the minor stage is covered too (C13_minor_filter_equivariant). NOT proved: the filters on opposite strands, and that the minor-stage instance is read from the filtered table the way MinorModel.inst records it (serialised from the implementation's objects); beyond the hypothesis, and for the implementation as a whole, harness/c13.py decides by a two-build differential on
+   The evidence filter of the minor stage is covered too (C13_minor_filter_equivariant), and for builds that differ by one offset the
+   pileup itself (C13_pileup_shift, C13_evidence_of_reads_shift, C13_phase_records_shift: reads -> coverage table and phase records). NOT proved: the filters on opposite strands, and that the minor-stage instance is read from the filtered table the way MinorModel.inst records it (serialised from the implementation's objects); beyond the hypothesis, and for the implementation as a whole, harness/c13.py decides by a two-build differential on
    stage results and scores (shipped genes hg19/hg38, generated opposite-strand databases). *)
 From Aldy Require Import Base Consts Transport TransportProofs.
-From Aldy Require Filter MajorModel MajorSpec MajorTransportProofs Norm NormProofs MinorModel MinorSpec MinorTransportProofs MajorStageTransportProofs.
+From Aldy Require Filter MajorModel MajorSpec MajorTransportProofs Norm NormProofs MinorModel MinorSpec MinorTransportProofs MajorStageTransportProofs Pileup PileupShiftProofs.
 Open Scope Z_scope.
 
 Theorem C13_stage_equivariant : forall (tr : variant -> variant) (vars : list variant),
@@ -93,7 +94,7 @@ Proof. exact shift_example. Qed.
    Then: every combination has the same score in both builds, admissibility is the same, and the enumerations of admissible
    combinations correspond one to one (same allele counts, novel variants transported, scores equal) — so, by the C02 theorems
    (reported = the admissible combinations within the gap of the best), the major calls and scores of the two builds agree.
-   NOT covered: the candidate filter (_filter_alleles) and the minor stage are not transported here. ---- *)
+   The candidate filter and the minor stage are transported further down in this file. ---- *)
 Theorem C13_major_score_equivariant : forall (tr : Filter.mut -> Filter.mut) (U : list Filter.mut) (cands : list MajorModel.allele) (fm : list Filter.mut)
   (obsf obsf' : Filter.mut -> Q) (hcov hcov' : str -> Z -> bool) (pen unit : Q),
   MajorTransportProofs.transport_ok tr U -> MajorTransportProofs.covers_instance U cands fm -> MajorTransportProofs.evidence_ok tr U obsf obsf' hcov hcov' ->
@@ -230,3 +231,41 @@ Example C13_major_stage_example :
           (MajorSpec.all_combs Consts_here.here MajorStageTransportProofs.mst_inst)
           (MajorSpec.all_combs Consts_here.here (MajorStageTransportProofs.Imap (fun p => p + 1000) MajorStageTransportProofs.mst_inst)).
 Proof. exact MajorStageTransportProofs.mst_example. Qed.
+
+(* ================================================================= down to the READS (Pileup.v, the object of the C06 theorems)
+   Another build on the same strand without alignment gaps inside the locus moves every coordinate by one offset d.  Moving the
+   gene view (lookup range, RefSeq-mapped intervals, wide region, phaseable sites, catalogued multi-substitutions) and the start
+   of every read by d leaves eligibility unchanged and moves every observation, every phase write and the whole coverage table
+   by d: what Coverage.coverage / Coverage.total return for a variant in one build they return for the moved variant in the
+   other, for EVERY read set.  So the hypothesis "the evidence of the second build is the evidence of the first seen through
+   the transport" of the stage theorems above is a theorem about the reads for such builds. ---- *)
+Theorem C13_pileup_shift : forall d g c rs,
+  Pileup.sample_table (PileupShiftProofs.shg d g) c (map (PileupShiftProofs.shr d) rs) = PileupShiftProofs.sht d (Pileup.sample_table g c rs).
+Proof. exact PileupShiftProofs.sample_table_sh. Qed.
+Goal True. idtac "ASSUME C13_pileup_shift". Abort.
+Print Assumptions C13_pileup_shift.
+
+Theorem C13_evidence_of_reads_shift : forall d g c rs indels k,
+  Pileup.cov_coverage (Pileup.sample_table (PileupShiftProofs.shg d g) c (map (PileupShiftProofs.shr d) rs)) (PileupShiftProofs.shi d indels) (PileupShiftProofs.shk d k)
+    = Pileup.cov_coverage (Pileup.sample_table g c rs) indels k /\
+  Pileup.cov_total_mut (Pileup.sample_table (PileupShiftProofs.shg d g) c (map (PileupShiftProofs.shr d) rs)) (PileupShiftProofs.shi d indels) (PileupShiftProofs.shk d k)
+    = Pileup.cov_total_mut (Pileup.sample_table g c rs) indels k /\
+  Pileup.cov_total_pos (Pileup.sample_table (PileupShiftProofs.shg d g) c (map (PileupShiftProofs.shr d) rs)) (fst k + d)
+    = Pileup.cov_total_pos (Pileup.sample_table g c rs) (fst k).
+Proof. exact PileupShiftProofs.evidence_of_reads_sh. Qed.
+Goal True. idtac "ASSUME C13_evidence_of_reads_shift". Abort.
+Print Assumptions C13_evidence_of_reads_shift.
+
+Theorem C13_read_shift : forall d g c r,
+  Pileup.eligible (PileupShiftProofs.shg d g) (PileupShiftProofs.shr d r) = Pileup.eligible g r /\
+  Pileup.read_obs (PileupShiftProofs.shg d g) c (PileupShiftProofs.shr d r) = map (PileupShiftProofs.sho d) (Pileup.read_obs g c r) /\
+  Pileup.read_phase (PileupShiftProofs.shg d g) c (PileupShiftProofs.shr d r) = map (PileupShiftProofs.shk d) (Pileup.read_phase g c r).
+Proof. intros d g c r. split; [apply PileupShiftProofs.eligible_sh|]. split; [apply PileupShiftProofs.read_obs_sh|apply PileupShiftProofs.read_phase_sh]. Qed.
+Goal True. idtac "ASSUME C13_read_shift". Abort.
+Print Assumptions C13_read_shift.
+
+Theorem C13_phase_records_shift : forall d g c rs,
+  Pileup.phases (PileupShiftProofs.shg d g) c (map (PileupShiftProofs.shr d) rs) = PileupShiftProofs.shph d (Pileup.phases g c rs).
+Proof. exact PileupShiftProofs.phases_sh. Qed.
+Goal True. idtac "ASSUME C13_phase_records_shift". Abort.
+Print Assumptions C13_phase_records_shift.
